@@ -1,8 +1,10 @@
 """Re-run one concrete C18 session on the implementation and print what the property oracle
-says.  usage: python -m harness.c18_replay '{"lazy": true, "steps": [[dt_us, tick_us, [call, args...]], ...]}'
-The clock advances dt_us before the call and tick_us after every reading during it; the step
-["reopen", mode, down_us] closes the store (mode "crash": as at process exit; "flush": after a
-commit), lets down_us pass and opens a new store instance on the same file."""
+says.  usage: python -m harness.c18_replay '{"lazy": true, "layer": "storage" | "api", "steps": [[dt_us, tick_us, [call, args...]], ...]}'
+The clock advances dt_us before the call and tick_us after every reading during it.  layer "api": the store is opened
+through Datastore(...) and every call is made through Datastore / Bucket (default: the storage object).  The step
+["reopen", mode, down_us] closes the store (mode "crash": as at process exit; "flush": after a commit), lets down_us pass
+and opens a new store instance on the same file; ["companion", [call, args...]] is a call on a second store (another
+file) alive in the same process.  '{"big": {"layer": .., "n": ..}}' re-runs the large-write run."""
 import json
 import sys
 
@@ -13,24 +15,34 @@ from . import c18_lib as lib18
 def main():
     arg = sys.argv[1]
     case = json.load(open(arg)) if not arg.lstrip().startswith("{") else json.loads(arg)
-    while "history" not in case and "replay" in case:
+    while "history" not in case and "big" not in case and "replay" in case:
         case = case["replay"]
     if "history" in case:
         case = case["history"]
     common.setup_impl_env()
     import aw_datastore.storages.sqlite as sq
     from aw_core.models import Event
-    s = lib18.run_session(sq, Event, case["lazy"], case["steps"])
+    if "big" in case:
+        v = lib18.big_writes_run(sq, Event, case["big"]["layer"], case["big"].get("n", lib18.BIG_N))
+        for sig, d in v:
+            print("VIOLATES", sig, "-", d)
+        if not v:
+            print("oracle: ok")
+        return 1 if v else 0
+    layer = case.get("layer", "storage")
+    s = lib18.run_session(sq, Event, case["lazy"], case["steps"], layer)
     v = lib18.c18_violations(s)
     for r in s.segments:
-        print(f"store instance #{r.index} opened at t={r.t0 / 1e6:.6f}s on {'the existing' if r.existing else 'a new'} file: "
+        print(f"store instance #{r.index} ({layer} layer) opened at t={r.t0 / 1e6:.6f}s on {'the existing' if r.existing else 'a new'} file: "
               f"{len(r.steps)} calls, {len(r.rec.issue_time)} write statements, {len(r.rec.obs)} crash points observed")
         for o in r.rec.obs:
             if o["kind"] == "call-end":
                 c = r.rec.calls[o["call"]]
                 J = o.get("J") or []
+                eff = c.get("effect")
+                seen = "" if not eff else (" effect-visible" if not (eff["missing"] or eff["still"]) else " effect-NOT-visible")
                 print(f"  t={o['t'] / 1e6:16.6f}s  {str(c['spec']):48s} issued={o['issued']:4d} committed-prefix={J[-1] if J else '??':>4} "
-                      f"n={o['n']} {'raised ' + c['outcome'] if c['outcome'] else ''}")
+                      f"n={o['n']}{seen} {'raised ' + c['outcome'] if c['outcome'] else ''}")
     for sig, d in v:
         print("VIOLATES", sig, "-", d)
     if not v:
